@@ -36,8 +36,9 @@ FORMATS = {
     'bipartite': ['kthlist', 'gml', 'dot', 'matrix'],
 }
 ROUTES = ['stringio', 'filename', 'filehandle', 'from_file', 'cli']
-NAME_ALPHABET = "abcdefghijklmnopqrstuvwxyzABCDEXYZ0123456789 -_.,:;()[]{}<>=+*/#!?@$%^&~|'"
-FIXED_NAMES = [None, '', '5', 'p edge 3 2', '1 : 2 0', 'c', '#', ' padded ', 'e 1 2', '0', 'graph [', 'x:y']
+NAME_ALPHABET = "abcdefghijklmnopqrstuvwxyzABCDEXYZ0123456789 -_.,:;()[]{}<>=+*/#!?@$%^&~|'\"\\"
+FIXED_NAMES = [None, '', '5', 'p edge 3 2', '1 : 2 0', 'c', '#', ' padded ', 'e 1 2', '0', 'graph [', 'x:y',
+               'say "hi"', '"', 'ends with \\', '\\"\\', 'a\\"b']
 
 
 # ---------------------------------------------------------------------------
